@@ -173,3 +173,12 @@ func (c *CqlClientConnection) VerifInFlight() *VerifInFlightHandler {
 func (c *CqlServerConnection) VerifModernLayout() bool { return c.modernLayout }
 
 func (c *CqlServerConnection) VerifCompression() primitive.Compression { return c.compression }
+
+// VerifListenAddr returns the address the server's listener is bound to ("" when there is none), so that a harness can
+// listen on port 0.
+func (server *CqlServer) VerifListenAddr() string {
+	if server.listener == nil {
+		return ""
+	}
+	return server.listener.Addr().String()
+}
